@@ -54,6 +54,9 @@ class IsoTpStateMachine:
         except ValueError:
             return  # unknown CAN ID
 
+        if len(data) == 0:
+            return  # empty frames do not contain an ISO-TP segment
+
         # decode the isotp segment
         frame_type, _ = bitstruct.unpack("u4u4", data)
         assert isinstance(frame_type, int)
